@@ -76,7 +76,13 @@ theorem C11_buffered_add_partial (d : Nat → K) (idx : List Nat) (vals : List K
     addBufferedSeq d idx vals = addAtSeq d idx vals := by
   rw [addBufferedSeq_eq, addAtSeq_eq, addBuffered_eq_addAt_of_nodup d idx vals h]
 
-/-- … and not otherwise: with a repeated slot the first contribution is lost. -/
+/-- Exactly then: over any `K` with `0 ≠ 1`, plain `+=` agrees with `np.add.at` for all arrays and
+values iff the slice has no repeated slot — which is why the duplicate flag must be exact. -/
+theorem C11_buffered_add_iff (h01 : (0 : K) ≠ 1) (idx : List Nat) :
+    (∀ (d : Nat → K) (vals : List K), addBufferedSeq d idx vals = addAtSeq d idx vals) ↔
+      idx.Nodup := buffered_iff h01 idx
+
+/-- A concrete instance: with a repeated slot the first contribution is lost. -/
 theorem C11_buffered_add_needs_no_duplicates :
     addBufferedSeq (fun _ => (0 : Rat)) [0, 0] [1, 2] 0 = 2 ∧
     addAtSeq (fun _ => (0 : Rat)) [0, 0] [1, 2] 0 = 3 := by decide +kernel
